@@ -173,6 +173,18 @@ theorem foldl_typed {α : Type} {P : Val → Prop} (f : Val → α → Val) (hf 
   | nil => exact hz
   | cons w r ih => exact ih _ (hf z w hz)
 
+theorem scanVals_typed {P Q : Val → Prop} (f : Val → Val → Val) (hf : ∀ s w, P s → Q w → P (f s w)) :
+    ∀ (vs : List Val) (z : Val), P z → (∀ w ∈ vs, Q w) → ∀ v ∈ scanVals f z vs, P v := by
+  intro vs
+  induction vs with
+  | nil => intro z hz _ v hv; simp only [scanVals, List.mem_singleton] at hv; subst hv; exact hz
+  | cons w r ih =>
+    intro z hz hq v hv
+    simp only [scanVals, List.mem_cons] at hv
+    rcases hv with rfl | hv
+    · exact hz
+    · exact ih (f z w) (hf z w hz (hq w (by simp))) (fun w' hw' => hq w' (by simp [hw'])) v hv
+
 /-- `toDict` on an array of pairs -/
 theorem mapM_pairOf_typed_tuple {vs : List Val} {k v : HType}
     (h : ∀ w ∈ vs, HasType w (.tuple (.cons k (.cons v .nil)))) {kvs : List (Val × Val)} (hm : vs.mapM pairOf = some kvs) :
@@ -401,6 +413,22 @@ theorem infer_sound (e : IR) : ∀ (Γ : Ctx) (Δ : Option Ctx) (ρ : Env) (A : 
         simp only [List.foldl_cons]
         apply ihr (fun w' hw' => h3 w' (by simp [hw']))
         exact ihb _ Δ _ A _ hu' (envTyped_cons (envTyped_cons hρ hz acc) (h3 w (by simp)) v) hA
+    · rw [h1]; exact h2 _
+  case streamScan acc v a z b iha ihz ihb =>
+    intro Γ Δ ρ A t h hρ hA
+    inv_bind at h
+    obtain ⟨s, hs, u, hu, h⟩ := h
+    cases s <;> simp only [reduceCtorEq] at h
+    rename_i et
+    inv_bind at h
+    obtain ⟨u', hu', rfl, rfl⟩ := h
+    simp only [eval]
+    rcases asArr_typed (iha Γ Δ ρ A _ hs hρ hA) (t := et) rfl with ⟨vs, h1, -, h3⟩ | ⟨o, h1, h2⟩
+    · rw [h1]
+      refine .stream ?_
+      exact scanVals_typed (P := fun x => HasType x u') (Q := fun x => HasType x et) _
+        (fun s w hs' hw => ihb _ Δ _ A _ hu' (envTyped_cons (envTyped_cons hρ hs' acc) hw v) hA)
+        vs _ (ihz Γ Δ ρ A _ hu hρ hA) h3
     · rw [h1]; exact h2 _
   case snil => intro Γ Δ ρ A t h _ _; inv_bind at h; subst h; exact .struct .nil
   case scons f e r ihe ihr =>
